@@ -95,7 +95,7 @@ META = {
              "steps 1..5 and 30); cut obligations: every step count, d=1..8; volume.det: d≤2, steps≤2; hastings: real integrator "
              "d≤3, steps≤3 (dense M inverted symbolically by the real torch.inverse call, d≤3); modular (any trajectory) d=1..8 both ranks, "
              "dense d≥4 with torch.inverse replaced by its contract; failure points: every model call / backward of a trial, d=2, steps≤2; "
-             "MCMC.run iteration: d≤3, steps≤2. U obligations are unbounded in the step count and enumerate d=1..8 (the property's bound)",
+             "MCMC.run iteration: d≤3 diagonal / d≤2 dense, steps≤2. U obligations are unbounded in the step count and enumerate d=1..8 (the property's bound)",
     "trusted_base": [
         "real arithmetic (IEEE rounding not modelled: 'up to round-off' is read as exact identity over the reals)",
         "TARGET/AUTOGRAD STAND-IN (assumed contract): the target is a real torchtree CallableModel subclass `_Target` whose "
@@ -702,9 +702,10 @@ def scn_volume_trace(d, sizes, steps, rank, variant="real"):
         last = tr.states[-1]
         fin = (last[3] is not None and all(nf.equal(a, b) for a, b in zip(last[3], _vec(p1)))
                and last[2] is not None and all(nf.equal(a, b) for a, b in zip(last[2], _vec(env.position()))))
-        if ok and (nd != steps or nk != steps + 2):
-            # the count is informational for the real code (steps drifts, steps+2 kicks); a different count is not a violation
-            pass
+        if ok and (nd < 1 or nk < 1):
+            # (the real code shows `steps` drifts and `steps`+2 kicks; a different count is not a violation, none at all is vacuous)
+            raise Undecided("trace: no position/momentum update attributed (%d drifts, %d kicks) — are the locals still called "
+                            "`params` and `momentum`?" % (nd, nk))
         return [("true", "every_assignment_is_a_shear", ok, info),
                 ("true", "final_state_consistent", fin, "returned momentum / parameter tensors differ from the traced locals")]
     return scn
@@ -760,11 +761,32 @@ def _Wspec(W):
     return _vec(W) if W.dim() == 1 else _mat(W)
 
 
+class _Locals(dict):
+    """locals() of a cut piece; a missing name means the source was refactored: undecided, not a verdict"""
+
+    def __missing__(self, k):
+        raise Undecided("loop cut: the local variable `%s` no longer exists in LeapfrogIntegrator.__call__" % k)
+
+
+class _CutUnavailable(Undecided):
+    """the loop cut cannot be applied to the current source (refactored function): the U obligation is downgraded to the
+    V obligations, which cover the property's own bound"""
+
+
+_CUT_NAMES = ("self", "model", "parameters", "momentum", "inverse_mass_matrix", "params", "dU")
+
+
 def _cut_pieces(cls):
     from vt import loopcut
-    c = loopcut.cut(cls.__call__, 0)
+    try:
+        c = loopcut.cut(cls.__call__, 0)
+    except Undecided as e:
+        raise _CutUnavailable(str(e))
     if c.kind != "for" or c.iter.replace(" ", "") != "range(self.steps)":
-        raise Undecided("loop cut: the loop header is %r, expected `for _ in range(self.steps)` (iteration count = steps)" % c.header)
+        raise _CutUnavailable("loop cut: the loop header is %r, expected `for _ in range(self.steps)` (iteration count = steps)" % c.header)
+    missing = [n for n in _CUT_NAMES if n not in c.live]
+    if missing:
+        raise _CutUnavailable("loop cut: live variables %s no longer exist in LeapfrogIntegrator.__call__" % missing)
     return c
 
 
@@ -789,7 +811,7 @@ def scn_cut(d, sizes, rank, variant="real"):
         Wbuf = _copy(env.W)
         # ---- prefix from an entry state
         p_in = _copy(P)
-        loc = c.prefix(integ, env.model, env.params, P, env.W)
+        loc = _Locals(c.prefix(integ, env.model, env.params, P, env.W))
         q0 = _vec(env.q)
         _, pk = _kick(q0, _vec(p_in), eps / 2, g_at)
         claims += [("eq", "prefix_params", loc["params"], q0),
@@ -809,6 +831,7 @@ def scn_cut(d, sizes, rank, variant="real"):
         state = {"self": integ, "model": model2, "parameters": params2, "momentum": mom, "inverse_mass_matrix": env.W,
                  "params": Q, "dU": dUold, "_": 3}
         tag, loc2 = c.body(state)
+        loc2 = _Locals(loc2)
         qn, pn = _drift(_vec(env.q), _vec(P), eps, W)
         _, pn2 = _kick(qn, pn, eps, g_at)
         claims += [("true", "body_falls_through", tag == "next", tag),
@@ -1207,6 +1230,8 @@ def scn_mcmc(d, sizes, rank, steps, plan):
         cl = [("true", "exactly_one_decision", op._accept + op._reject == 1, (op._accept, op._reject)),
               ("true", "number_of_momentum_draws", len(draws.log) == n_trials, len(draws.log)),
               ("true", "epoch_advanced", chain._epoch == 2)]
+        for t, (_, _, _, pos) in enumerate(draws.log):
+            cl.append(("eq", "trial%d_starts_from_saved_state" % t, pos, q0))
         if all_fail:
             cl += [("true", "ten_failures_are_rejected", not accepted),
                    ("eq", "state_is_saved_state", q_end, q0)]
@@ -1377,6 +1402,19 @@ def _must_fail(name, factory, args, what, seed, clause="vacuity", **kw):
     return Ob(name, "V", body, clause=clause, funcs=FUNCS, timeout=300)
 
 
+def _cut_ob(name, factory, args, clause, d, seed, fallback):
+    """scenario obligation for a loop-cut contract; when the cut cannot be applied to the current source the downgrade to
+    the V obligations (which enumerate the property's whole bound) is recorded instead of a verdict (DESIGN 2.5)"""
+    def body():
+        scn = globals()[factory](*args)
+        try:
+            return prove_scenario(scn, seed=seed, replay={"contract": "C16", "factory": factory, "args": list(args)}, fns=_fns(d))
+        except _CutUnavailable as e:
+            return {"backend": "downgraded", "trivial": True,
+                    "statement": "DOWNGRADED to V (%s): %s" % (fallback, str(e)[:300])}
+    return Ob(name, "U", body, clause=clause, funcs=FUNCS)
+
+
 # ======================================================================================================
 # obligations
 # ======================================================================================================
@@ -1407,9 +1445,11 @@ def obligations(tier, seed):
     for d in range(1, D_MAX + 1):
         for rank in ranks:
             sizes = _split(d)
-            add("C16.reverse.cut[d=%d,%s]" % (d, rank), "U", "scn_cut", (d, sizes, rank), "reversibility (all step counts)", d)
+            obs.append(_cut_ob("C16.reverse.cut[d=%d,%s]" % (d, rank), "scn_cut", (d, sizes, rank), "reversibility (all step counts)", d, seed,
+                               "C16.reverse[d=%d,steps=1..%d,%s]" % (d, STEPS_MAX, rank)))
             add("C16.reverse.lemmas[d=%d,%s]" % (d, rank), "U", "scn_lemmas", (d, rank), "reversibility (all step counts)", d)
-            add("C16.volume.cut[d=%d,%s]" % (d, rank), "U", "scn_volume_cut", (d, sizes, rank), "volume preservation (all step counts)", d)
+            obs.append(_cut_ob("C16.volume.cut[d=%d,%s]" % (d, rank), "scn_volume_cut", (d, sizes, rank), "volume preservation (all step counts)", d, seed,
+                               "C16.volume.trace[d=%d,steps=1..%d,%s]" % (d, STEPS_MAX, rank)))
     # ---- volume trace (V)
     for d in range(1, D_MAX + 1):
         for rank in ranks:
@@ -1456,6 +1496,8 @@ def obligations(tier, seed):
     # one iteration of the real MCMC.run (accept rule on the full Hamiltonian difference; ten failures rejected)
     for d in ((1, 2, 3) if thorough else (1, 2)):
         for rank in ranks:
+            if rank == "dense" and d > 2:
+                continue   # exp(·) of the unreduced 3×3 symbolic inverse is out of z3's budget
             for steps in ((1, 2) if thorough else (1,)):
                 add("C16.hastings.mcmc[d=%d,steps=%d,%s]" % (d, steps, rank), "V", "scn_mcmc", (d, _split(d), rank, steps, [None]),
                     "acceptance decided on the full Hamiltonian difference (real MCMC.run)", d, expect_paths_min=3)
